@@ -354,3 +354,15 @@ func SeedFromEnv() int64 {
 
 // Hex is a convenience for samples.
 func Hex(b []byte) string { return hex.EncodeToString(b) }
+
+// LastViolation describes the most recent violation (used by the fuzz targets,
+// whose worker processes have no visible standard output).
+func (r *Run) LastViolation() string {
+	r.mu.Lock()
+	defer r.mu.Unlock()
+	if len(r.violations) == 0 {
+		return ""
+	}
+	v := r.violations[len(r.violations)-1]
+	return fmt.Sprintf("VIOLATION property=%s replay=%s key=%s :: %s", r.ID, v.Replay, v.Key, trunc(v.What, 600))
+}
